@@ -100,23 +100,30 @@ def run(ck: Check):
         for mode in ("gumbel_soft", "gumbel_hard"):
             for par in ("raw", "walsh"):
                 for tau in (-1.0, 0.0, 1e-30 * 0 - 0.5, 0.7, float("nan"), float("-inf")):
-                    lg = LogicDense(n, 4, device="cpu", parametrization=par, forward_sampling=mode, temperature=tau)
-                    lg.train()
-                    got = outcome(lambda: lg(torch.rand(2, n)))
-                    record("dense-gumbel", {"param": par, "mode": mode, "tau": jnum(tau), "bad": "tau"}, tau > 0, got)
+                    def _dg(given):
+                        lg = LogicDense(n, 4, device="cpu", parametrization=par, forward_sampling=mode, temperature=tau if given == "constructor" else 1.0)
+                        lg.temperature = tau
+                        lg.train()
+                        return lg(torch.rand(2, n))
+                    for given in ("constructor", "attribute"):
+                        got = outcome(lambda: _dg(given))
+                        record("dense-gumbel", {"param": par, "mode": mode, "tau": jnum(tau), "bad": "tau", "given": given}, tau > 0, got)
     # outside the Gumbel modes too, a temperature that is not a positive finite number gives NaN / an inverted weighting in
     # training mode (eval does not use it and must keep working)
     for par in ("raw", "walsh"):
         for mode in ("soft", "hard", "gumbel_soft", "gumbel_hard"):
             for tau in (0.0, -1.0, float("nan"), float("inf"), 2.5):
                 for kind in ("dense", "conv"):
+                    # (built with a valid temperature, the value under test assigned afterwards: a constructor that validates is fine,
+                    # what matters is that the value in use is validated)
                     if kind == "dense":
-                        lt = LogicDense(4, 3, device="cpu", parametrization=par, forward_sampling=mode, temperature=tau)
+                        lt = LogicDense(4, 3, device="cpu", parametrization=par, forward_sampling=mode, temperature=1.0)
                         xt = torch.rand(2, 4)
                     else:
                         lt = LogicConv2d(in_dim=(3, 3), device="cpu", channels=1, num_kernels=2, tree_depth=1, receptive_field_size=2,
-                                         parametrization=par, forward_sampling=mode, temperature=tau)
+                                         parametrization=par, forward_sampling=mode, temperature=1.0)
                         xt = torch.rand(2, 1, 3, 3)
+                    lt.temperature = tau
                     lt.train()
                     got = outcome(lambda: lt(xt))
                     record(kind + "-temperature", {"param": par, "mode": mode, "tau": jnum(tau), "bad": "tau"}, 0 < tau < float("inf"), got)
@@ -253,11 +260,16 @@ def run(ck: Check):
                 for mode in ("gumbel_soft", "gumbel_hard"):
                     for par in ("raw", "walsh"):
                         for tau in (-1.0, 0.0, 0.7, float("nan")):
-                            lg = LogicConv2d(in_dim=tuple(n), device="cpu", channels=C, num_kernels=2, tree_depth=1, receptive_field_size=2,
-                                             parametrization=par, forward_sampling=mode, temperature=tau)
-                            lg.train()
-                            got = outcome(lambda: lg(torch.rand(2, C, *n)))
-                            record("conv2d-gumbel", {"param": par, "mode": mode, "tau": jnum(tau), "bad": "tau"}, tau > 0, got)
+                            def _built(t=tau, given="constructor"):
+                                lg = LogicConv2d(in_dim=tuple(n), device="cpu", channels=C, num_kernels=2, tree_depth=1, receptive_field_size=2,
+                                                 parametrization=par, forward_sampling=mode, temperature=t if given == "constructor" else 1.0)
+                                lg.temperature = t          # a schedule assigns it later
+                                lg.train()
+                                return lg(torch.rand(2, C, *n))
+                            got = outcome(_built)
+                            record("conv2d-gumbel", {"param": par, "mode": mode, "tau": jnum(tau), "bad": "tau", "given": "constructor"}, tau > 0, got)
+                            got = outcome(lambda: _built(given="attribute"))
+                            record("conv2d-gumbel", {"param": par, "mode": mode, "tau": jnum(tau), "bad": "tau", "given": "attribute"}, tau > 0, got)
     # ---------------- GroupSum
     for _ in range(reps):
         for k, nfeat in ((2, 6), (2, 7), (3, 10), (5, 5), (4, 2), (1, 9)):
